@@ -7,7 +7,11 @@ use std::panic::{catch_unwind, AssertUnwindSafe};
 use std::sync::atomic::{AtomicBool, AtomicU64, Ordering};
 use std::sync::{Arc, Mutex};
 
-pub const VERIF_DIR: &str = "/verif";
+/// Where evidence, replays and known findings live: the directory of the `check` script that
+/// started us (a background snapshot run must not write into /verif), /verif by default.
+pub fn verif_dir() -> String {
+    std::env::var("FRSIM_VERIF_DIR").ok().filter(|s| !s.is_empty()).unwrap_or_else(|| "/verif".to_string())
+}
 
 #[derive(Clone, Copy, Debug, PartialEq, Eq)]
 pub enum Tier {
@@ -155,7 +159,7 @@ pub struct KnownFinding {
 }
 
 pub fn load_known_findings() -> Vec<KnownFinding> {
-    let path = format!("{}/known_findings.json", VERIF_DIR);
+    let path = format!("{}/known_findings.json", verif_dir());
     let Ok(text) = std::fs::read_to_string(&path) else {
         return Vec::new();
     };
@@ -186,7 +190,7 @@ pub fn is_known(known: &[KnownFinding], property: &str, key: &str) -> Option<Kno
 }
 
 pub fn write_replay(v: &Violation, seed: u64) -> String {
-    let dir = format!("{}/replays", VERIF_DIR);
+    let dir = format!("{}/replays", verif_dir());
     let _ = std::fs::create_dir_all(&dir);
     let path = format!("{}/{}-{}-{}.json", dir, v.property, v.class, seed);
     let body = json!({
@@ -248,7 +252,7 @@ impl Evidence {
             "wall_s": self.wall_s,
             "violations": self.violations,
         });
-        let dir = format!("{}/evidence", VERIF_DIR);
+        let dir = format!("{}/evidence", verif_dir());
         let _ = std::fs::create_dir_all(&dir);
         let path = format!("{}/{}.json", dir, self.property);
         let tmp = format!("{}.tmp", path);
